@@ -182,7 +182,7 @@ func (obj *Hmm) BaumWelchStep(hmm1, hmm2 *Hmm, data HmmDataSet, meta ConstVector
   }
   // wait for all threads to finish
   if err := p.Wait(g); err != nil {
-    return math.Inf(-1), nil
+    return math.Inf(-1), err
   }
   verifHook("bw.wait.return", 0, -1, false, 0.0)
   // get some temporary variables
